@@ -658,3 +658,255 @@ Definition query_outcome (dm : dmodel) (qs : list rentity) : outcome :=
   | None => OErr
   | Some cs => if forallb entity_executes cs then OOk else OErr
   end.
+
+(* ------------------------------------------------------------------------------------------ *)
+(** * D. one entity selected with the whole clause language: aggregate functions, order_by,
+      first / skip, before / after, filters (also on aggregates), json selectors, search(),
+      nullable(), values given as literals or as parameters.
+      Mirrors query_parser.rs parse_functions / build_filter / build_order_by / finalize and, as a
+      clause skeleton, query.rs get_entity_query / get_end_select_query / get_limit.
+      Names are resolved by the harness against its fixed data model: a key says what its name
+      denotes (an entity field of some type, a reference, the alias of a selected field). *)
+
+Inductive aggfn := ACount | AAvg | AMax | AMin | ASum.
+Inductive asel :=
+| ASField (t : ftype) (nullable : bool)      (* a scalar field, by name or under an alias *)
+| ASSys                                      (* mdate *)
+| ASAgg (fn : aggfn) (arg : ftype)           (* alias: fn(field of that type); count() ignores arg *)
+| ASJson                                     (* alias: jsonfield->$.a  (the field is nullable) *)
+| ASSub (nullable : bool).                   (* a reference field { name } *)
+
+Inductive akey :=
+| KEnt (t : ftype) (nullable : bool)         (* the name of an entity scalar field, selected or not *)
+| KEntSys                                    (* mdate *)
+| KEntRef                                    (* the name of an entity reference field *)
+| KSel (i : nat)                             (* the alias of the i-th selected field *)
+| KNone.                                     (* no such name *)
+
+Inductive aval := AVar (x : N) | ANull | ABool | AInt | AFloat | AStr (s : strc).
+Inductive asearch := SrchLit (blank : bool) | SrchVar (x : N) (blank : bool).   (* blank: of the text searched *)
+Inductive alim := LimLit | LimVar (x : N).
+
+Record aquery := {
+  aq_sel : list asel;
+  aq_search : option asearch;
+  aq_order : list akey;
+  aq_first : option alim;
+  aq_skip : option alim;
+  aq_before : list aval;
+  aq_after : list aval;
+  aq_filters : list (akey * bool * aval);      (* key, operator is = or != , value *)
+  aq_nullable : list nat;                      (* nullable(..): indices of selected fields *)
+  aq_params : params }.
+
+(* what a key denotes: Field.field_type, Field.nullable, is it a reference, is it an aggregate *)
+Record kinfo := { ki_type : ftype; ki_nullable : bool; ki_ref : bool; ki_agg : bool; ki_sys : bool }.
+Definition sel_info (s : asel) : kinfo :=
+  match s with
+  | ASField t n => {| ki_type := t; ki_nullable := n; ki_ref := false; ki_agg := false; ki_sys := false |}
+  | ASSys => {| ki_type := FInt; ki_nullable := false; ki_ref := false; ki_agg := false; ki_sys := true |}
+  | ASAgg _ _ => {| ki_type := FFloat; ki_nullable := false; ki_ref := false; ki_agg := true; ki_sys := false |}
+  | ASJson => {| ki_type := FJson; ki_nullable := true; ki_ref := false; ki_agg := false; ki_sys := false |}
+  | ASSub _ => {| ki_type := FBool; ki_nullable := false; ki_ref := true; ki_agg := false; ki_sys := false |}
+  end.
+Definition key_info (q : aquery) (k : akey) : option kinfo :=
+  match k with
+  | KEnt t n => Some {| ki_type := t; ki_nullable := n; ki_ref := false; ki_agg := false; ki_sys := false |}
+  | KEntSys => Some {| ki_type := FInt; ki_nullable := false; ki_ref := false; ki_agg := false; ki_sys := true |}
+  | KEntRef => Some {| ki_type := FBool; ki_nullable := false; ki_ref := true; ki_agg := false; ki_sys := false |}
+  | KSel i => option_map sel_info (nth_error (aq_sel q) i)
+  | KNone => None
+  end.
+
+(* Field::get_variable_type / get_variable_type_non_nullable of what a key denotes *)
+Definition kinfo_vtype (i : kinfo) (nullable : bool) : vtype :=
+  match ki_type i with
+  | FBase64 => if ki_sys i then VtBinary nullable else VtBase64 nullable
+  | FBool => VtBool nullable
+  | FInt => VtInt nullable
+  | FFloat => VtFloat nullable
+  | FString | FJson => VtString nullable
+  end.
+
+(* parse_functions: avg / sum need a number *)
+Definition sel_ok (s : asel) : bool :=
+  match s with
+  | ASAgg (AAvg | ASum) t => match t with FInt | FFloat => true | _ => false end
+  | _ => true
+  end.
+Definition is_agg_sel (s : asel) : bool := match s with ASAgg _ _ => true | _ => false end.
+Definition is_sub_sel (s : asel) : bool := match s with ASSub _ => true | _ => false end.
+Definition is_aggregate (q : aquery) : bool := existsb is_agg_sel (aq_sel q).
+
+(* build_filter; None = Err; the variable table grows *)
+Definition filter_check (q : aquery) (f : akey * bool * aval) (vs : vars) : option vars :=
+  let '(k, eqop, v) := f in
+  match key_info q k with
+  | None => None
+  | Some i =>
+      if ki_ref i && negb eqop then None                                  (* InvalidEntityFilter *)
+      else match v with
+           | AVar x => if ki_ref i then None else vars_add vs x (kinfo_vtype i (ki_nullable i))
+           | ANull => if ki_nullable i || ki_ref i then Some vs else None
+           | ABool => if ki_ref i then None else match ki_type i with FBool => Some vs | _ => None end
+           | AInt => if ki_ref i then None else match ki_type i with FFloat | FInt => Some vs | _ => None end
+           | AFloat => if ki_ref i then None else match ki_type i with FFloat => Some vs | _ => None end
+           | AStr s => if ki_ref i then None
+                       else match ki_type i with
+                            | FString => Some vs
+                            | FBase64 => if s_b64 s then Some vs else None
+                            | _ => None end
+           end
+  end.
+Fixpoint filters_check (q : aquery) (fs : list (akey * bool * aval)) (vs : vars) : option vars :=
+  match fs with
+  | [] => Some vs
+  | f :: r => match filter_check q f vs with Some vs' => filters_check q r vs' | None => None end
+  end.
+
+(* build_order_by *)
+Definition order_ok (q : aquery) (k : akey) : bool :=
+  match key_info q k with Some i => negb (ki_ref i) | None => false end.
+
+(* finalize: the i-th paging value against the i-th order key *)
+Definition paging_check (q : aquery) (kv : akey * aval) (vs : vars) : option vars :=
+  let '(k, v) := kv in
+  match key_info q k with
+  | None => None
+  | Some i =>
+      match v with
+      | AVar x => vars_add vs x (kinfo_vtype i false)
+      | ABool => match ki_type i with FBool => Some vs | _ => None end
+      | AInt => match ki_type i with FInt | FFloat => Some vs | _ => None end
+      | AFloat => match ki_type i with FFloat => Some vs | _ => None end
+      | AStr s => match ki_type i with
+                  | FString => Some vs
+                  | FBase64 => if s_b64 s then Some vs else None
+                  | _ => None end
+      | ANull => None                                                     (* not in the grammar *)
+      end
+  end.
+Fixpoint pagings_check (q : aquery) (kvs : list (akey * aval)) (vs : vars) : option vars :=
+  match kvs with
+  | [] => Some vs
+  | kv :: r => match paging_check q kv vs with Some vs' => pagings_check q r vs' | None => None end
+  end.
+
+Definition lim_var (l : option alim) (vs : vars) : option vars :=
+  match l with Some (LimVar x) => vars_add vs x (VtInt false) | _ => Some vs end.
+Definition paging_of (q : aquery) : list aval := match aq_after q with [] => aq_before q | l => l end.
+
+(* QueryParser::parse for this family: the variable table, or None = Err *)
+Definition aquery_check (q : aquery) : option vars :=
+  match lim_var (aq_first q) [] with None => None | Some v1 =>
+  match lim_var (aq_skip q) v1 with None => None | Some v2 =>
+  match (match aq_search q with Some (SrchVar x _) => vars_add v2 x (VtString false) | _ => Some v2 end) with None => None | Some v3 =>
+  if negb (forallb sel_ok (aq_sel q)) then None else
+  match filters_check q (aq_filters q) v3 with None => None | Some v4 =>
+  if negb (forallb (order_ok q) (aq_order q)) then None else
+  if negb (forallb (fun i => match nth_error (aq_sel q) i with Some (ASSub _) => true | _ => false end) (aq_nullable q)) then None else
+  (* finalize *)
+  if (match aq_search q with Some _ => true | None => false end) && negb (match aq_order q with [] => true | _ => false end) then None else
+  if negb (match aq_after q with [] => true | _ => false end) && negb (match aq_before q with [] => true | _ => false end) then None else
+  let pg := paging_of q in
+  if negb (match pg with [] => true | _ => false end) && (match aq_search q with Some _ => true | None => false end) then None else
+  if Nat.ltb (List.length (aq_order q)) (List.length pg) then None else
+  match pagings_check q (combine (aq_order q) pg) v4 with None => None | Some v5 =>
+  if existsb is_sub_sel (aq_sel q) && is_aggregate q then None else Some v5
+  end end end end end.
+
+Definition search_blank (q : aquery) : bool :=
+  match aq_search q with Some (SrchLit b) | Some (SrchVar _ b) => b | None => false end.
+
+(* a filter on a reference field (pets = null) is compiled to a test on the selected json value
+   (value->>'$.pets[0]' is null); in an aggregate selection that value contains the aggregate
+   functions and the engine refuses it in WHERE ("misuse of aggregate") *)
+Definition key_is_ref (q : aquery) (k : akey) : bool :=
+  match key_info q k with Some i => ki_ref i | None => false end.
+Definition ref_filter_on_aggregate (q : aquery) : bool :=
+  is_aggregate q && existsb (fun f => key_is_ref q (fst (fst f))) (aq_filters q).
+
+(* GraphDatabaseService::query for this family *)
+Definition aquery_outcome (q : aquery) : outcome :=
+  match aquery_check q with
+  | None => OErr
+  | Some vs => match validate_params vs (aq_params q) with
+               | None => OErr
+               | Some _ => if search_blank q then OErr                (* FTS5: blank text *)
+                           else if ref_filter_on_aggregate q then OErr (* engine: misuse of aggregate *)
+                           else OOk
+               end
+  end.
+
+(* the clause skeleton of the statement after FROM (get_entity_query + get_end_select_query +
+   get_limit): conditions, the words that join them and the clause keywords *)
+Inductive ctok := CCond | CAnd | CGroup | CHaving | COrder | CLimit | COffset.
+
+Definition key_is_agg (q : aquery) (k : akey) : bool :=
+  match key_info q k with Some i => ki_agg i | None => false end.
+Fixpoint joined (n : nat) : list ctok :=       (* c1 AND c2 AND .. *)
+  match n with O => [] | S O => [CCond] | S k => CCond :: CAnd :: joined k end.
+Fixpoint exists_conds (sel : list asel) (nullable : list nat) (i : nat) : list ctok :=
+  match sel with
+  | [] => []
+  | ASSub false :: r => (if existsb (Nat.eqb i) nullable then [] else [CAnd; CCond]) ++ exists_conds r nullable (S i)
+  | _ :: r => exists_conds r nullable (S i)
+  end.
+Definition emit_clauses (q : aquery) : list ctok :=
+  let agg := is_aggregate q in
+  let nagg := List.length (filter (fun f => key_is_agg q (fst (fst f))) (aq_filters q)) in
+  let nplain := List.length (filter (fun f => negb (key_is_agg q (fst (fst f)))) (aq_filters q)) in
+  let paging := negb (match paging_of q with [] => true | _ => false end) in
+  [CCond]
+  ++ exists_conds (aq_sel q) (aq_nullable q) 0
+  ++ (match aq_search q with Some _ => [CAnd; CCond] | None => [] end)
+  ++ (match nplain with O => [] | _ => CAnd :: joined nplain end)
+  ++ (if agg then (if existsb (fun s => match s with ASField FBase64 _ => false | ASField _ _ | ASSys => true | _ => false end) (aq_sel q) then [CGroup] else [])
+                  ++ (if negb (Nat.eqb nagg 0) || paging then [CHaving] else [])
+      else [])
+  ++ joined nagg
+  ++ (if negb (Nat.eqb nagg 0) && paging then [CAnd] else [])
+  ++ (if negb agg && paging then [CAnd] else [])
+  ++ (if paging then [CCond] else [])
+  ++ (if negb (match aq_order q with [] => true | _ => false end) || (match aq_search q with Some _ => true | None => false end) then [COrder] else [])
+  ++ (match aq_first q, aq_skip q with
+      | Some _, Some _ => [CLimit; COffset]
+      | Some _, None => [CLimit]
+      | None, Some _ => [CLimit; COffset]              (* LIMIT -1 OFFSET n *)
+      | None, None => [] end).
+
+(* the grammar of that part of a SELECT: WHERE c (AND c)* [GROUP BY] [HAVING c (AND c)*] [ORDER BY]
+   [LIMIT [OFFSET]] — a condition after GROUP BY needs HAVING *)
+Inductive cstate := SCond | SAfterCond | SAfterGroup | SAfterOrder | SAfterLimit | SEnd.
+Definition cstep (st : cstate) (having : bool) (t : ctok) : option (cstate * bool) :=
+  match st, t with
+  | SCond, CCond => Some (SAfterCond, having)
+  | SAfterCond, CAnd => Some (SCond, having)
+  | SAfterCond, CGroup => if having then None else Some (SAfterGroup, false)
+  | SAfterCond, CHaving => if having then None else Some (SCond, true)
+  | SAfterGroup, CHaving => Some (SCond, true)
+  | (SAfterCond | SAfterGroup), COrder => Some (SAfterOrder, having)
+  | (SAfterCond | SAfterGroup | SAfterOrder), CLimit => Some (SAfterLimit, having)
+  | SAfterLimit, COffset => Some (SEnd, having)
+  | _, _ => None
+  end.
+Fixpoint crun (st : cstate) (having : bool) (ts : list ctok) : bool :=
+  match ts with
+  | [] => match st with SCond => false | _ => true end
+  | t :: r => match cstep st having t with Some (st', h') => crun st' h' r | None => false end
+  end.
+Definition clauses_ok (ts : list ctok) : bool := crun SCond false ts.
+
+(* deletion `delete { E { $id } }` (deletion_parser.rs: the id is a Base64 variable;
+   DeletionQuery::build: as_string().unwrap(), uid_decode, nothing to delete is not an error) *)
+Definition delete_outcome (p : option pval) : outcome :=
+  match p with
+  | None => OErr
+  | Some p0 => match validate_one (VtBase64 false) p0 with
+               | None => OErr
+               | Some p' => match as_string p' with
+                            | None => OPanic                       (* .as_string().unwrap() *)
+                            | Some s => match s_uid s with UNot16 => OErr | _ => OOk end
+                            end
+               end
+  end.
